@@ -76,8 +76,9 @@ def t_lang(c, rng, code=None, country=None):
     h = c["host"]
     if not lang_ok(h) or c.get("_lang"):
         return None
-    if N.has_marker(h) and not h.lower().startswith("www."):
-        return None  # markers are not stacked (only 'www.' is combined with a language label, as the statement's reading allows)
+    rest = h[4:] if h.lower().startswith("www.") else h
+    if N.has_marker(rest) or c.get("_stacked"):
+        return None  # markers are not stacked (only a single leading 'www.' is combined with a language label)
     if c.get("_marked") and not h.lower().startswith("www."):
         return None
     d = copy.deepcopy(c)
